@@ -54,6 +54,10 @@ CLAIMED = {
    text="TLC enumerates (type kind, default value, position) cases, classifies each default with Schema!Valid on the site's schema (cross-checked against jsonschema) and the real typify ingests the document; the generated code is compiled and the three realisation sites are executed (deserialising an object without the member, Default::default(), the empty builder); TLC validates the recorded events against the C06 contract: an invalid default makes ingestion fail, a valid accepted default neither breaks rendering nor compilation and every realisation equals the schema default up to nested defaults and is valid",
    note="bounded: 73 (kind, value) pairs x 2 positions; trusted: TLC, Schema.tla (self-checked), rustc, serde, vdrive",
    ref="DESIGN.md 6 C06"),
+ "C18": dict(
+   text="the builder is specified as a state machine (ContractBuilder.tla: one slot per property, Set with convertible / inconvertible argument, Build); TLC explores every history of setter calls within the bound for four struct shapes, each history is compiled into a driver against the real generated builder and run, and the recorded result is validated by TLC by replaying the history through the contract's actions: success iff every non-defaulted property set and no failed conversion, error names a failing property, built value equals serde's value for the same members, struct -> builder -> struct is the identity",
+   note="bounded: 4 structs, histories of <= 3 (thorough 4) setter calls; trusted: TLC, rustc, serde, vdrive",
+   ref="DESIGN.md 6 C18"),
 }
 NA_REASON = {}
 DEFAULT_NA = "check under construction in this session (DESIGN.md 11); not yet claimed"
